@@ -15,6 +15,19 @@ no copy writes an array the reference declares Final (V5), and every variant bod
    function of its operands;
 a body with the same statements and a recognisably different expression is VIOLATED (the
 diagnosis names the two expressions), anything else is UNDECIDED - never silently accepted.
+Relational steps of V4 (both sides extracted, then compared with each other):
+ - engine G: a loop-free function (scalar value functions, procedures storing single elements) is a table of guarded values
+   (paths, linear path conditions, returned values and stored elements); reference and copy agree when the values are equal on
+   every jointly satisfiable pair of paths (Fourier-Motzkin elimination, integers tightened, int() tied to its argument); a
+   satisfiable pair with different values is VIOLATED with the region and both values quoted;
+ - a local / loop counter defined with a constant shift and used with the compensating shift everywhere is the same function
+   (HOLDS); a use that does not follow the shift is VIOLATED; an array whose axes are permuted consistently in every access is
+   another memory layout (local scratch array: HOLDS; parameter: UNDECIDED, depends on the callers); nests of independent
+   loops are compared in one order; an elementwise scratch vector (T[:] = E(A); ... T[k]) is compared as its element formula
+   E(A[k]); keyword arguments of calls are put at their positions; optional parameters that only the reference has and no
+   library call passes are bound to their defaults before the comparison.
+V1 and I1 bind the actual library calls (with `*seq` / `**mapping` written out from their literal): VIOLATED names the call
+that does not bind; a starred argument that cannot be followed is UNDECIDED.
 K1: no index that interpreted Python would wrap around and compiled code would not (X - Y % n,
 one-sided or single-step range correction of a difference, unreduced difference of array data,
 index counted from the end by a variable); K2: no loop counter read after its loop.
@@ -354,10 +367,82 @@ def _seq(fn):
     return order
 
 
-def _inline_temps(f: ast.FunctionDef, pure: set):
+def _inline_temps(f: ast.FunctionDef, pure: set, ranks: dict = None):
     """write single-assignment locals with a side-effect-free value back into their uses (undoes hoisting of invariants
-    and common-subexpression temporaries); iterated to a fixed point"""
+    and common-subexpression temporaries); iterated to a fixed point.  `ranks`: rank of the annotated parameters (0 = scalar):
+    a value built from scalars and fully indexed elements is immutable, a callee cannot change it"""
     params = {a.arg for a in f.args.args}
+    ranks = ranks or {}
+
+    def element_of_param(n):
+        if isinstance(n, ast.Subscript) and isinstance(n.value, ast.Name) and ranks.get(n.value.id, 0) > 0:
+            items = n.slice.elts if isinstance(n.slice, ast.Tuple) else [n.slice]
+            return len(items) == ranks[n.value.id] and not any(isinstance(it, (ast.Slice, ast.Starred)) for it in items)
+        return False
+
+    def scalar_names():
+        known = {p_ for p_, r_ in ranks.items() if r_ == 0} | {"pi"} - {n.id for n in ast.walk(f) if isinstance(n, ast.Name) and n.id == "pi"
+                                                                        and isinstance(n.ctx, ast.Store)}
+        for n in ast.walk(f):
+            if isinstance(n, ast.For) and isinstance(n.iter, ast.Call) and isinstance(n.iter.func, ast.Name) and n.iter.func.id == "range" \
+                    and isinstance(n.target, ast.Name):
+                known.add(n.target.id)
+        defs: dict[str, list] = {}
+        for n in ast.walk(f):
+            if isinstance(n, ast.Name) and isinstance(n.ctx, ast.Store) and n.id not in known:
+                defs.setdefault(n.id, [])
+        for n in ast.walk(f):
+            if isinstance(n, ast.Assign) and len(n.targets) == 1 and isinstance(n.targets[0], ast.Name) and n.targets[0].id in defs:
+                defs[n.targets[0].id].append(n.value)
+        nstores = {}
+        for n in ast.walk(f):
+            if isinstance(n, ast.Name) and isinstance(n.ctx, ast.Store):
+                nstores[n.id] = nstores.get(n.id, 0) + 1
+
+        def is_scalar(e):
+            if isinstance(e, ast.Constant):
+                return isinstance(e.value, (int, float)) and not isinstance(e.value, bool)
+            if isinstance(e, ast.Name):
+                return e.id in known
+            if isinstance(e, ast.BinOp):
+                return is_scalar(e.left) and is_scalar(e.right)
+            if isinstance(e, ast.UnaryOp):
+                return is_scalar(e.operand)
+            if isinstance(e, ast.Subscript):
+                items = e.slice.elts if isinstance(e.slice, ast.Tuple) else [e.slice]
+                if isinstance(e.value, ast.Attribute) and e.value.attr == "shape" and isinstance(e.value.value, ast.Name):
+                    return True
+                return element_of_param(e) and all(is_scalar(it) for it in items)
+            if isinstance(e, ast.Call) and isinstance(e.func, ast.Name) and e.func.id in _MATH_PURE and not e.keywords:
+                return all(is_scalar(a) for a in e.args)
+            return False
+        for _ in range(6):
+            grew = False
+            for x, vs in defs.items():
+                if x not in known and x not in params and vs and len(vs) == nstores.get(x, 0) and all(is_scalar(v_) for v_ in vs):
+                    known.add(x)
+                    grew = True
+            if not grew:
+                break
+        return known
+
+    def handed(e, scalars):
+        """names whose object a callee receiving `e` could write into"""
+        out = set()
+
+        def go(n):
+            if isinstance(n, ast.Name):
+                if n.id not in scalars:
+                    out.add(n.id)
+            elif element_of_param(n):
+                pass                      # an element: a number
+            elif isinstance(n, ast.Subscript) and isinstance(n.value, ast.Attribute) and n.value.attr == "shape":
+                pass
+            else:
+                for ch in ast.iter_child_nodes(n):
+                    go(ch)
+        go(e)
+        return out
 
     def scalar_pure(e):
         return all(isinstance(n, (ast.BinOp, ast.UnaryOp, ast.Name, ast.Constant, ast.operator, ast.unaryop, ast.expr_context, ast.Compare,
@@ -412,18 +497,17 @@ def _inline_temps(f: ast.FunctionDef, pure: set):
                             b = b.value
                         if isinstance(b, ast.Name):
                             arr_written.add(b.id)
+        scalars = scalar_names()
+        for st, _ in order:
             if isinstance(st, ast.Expr) and isinstance(st.value, ast.Call):
-                for n in ast.walk(st.value):
-                    if isinstance(n, ast.Name):
-                        proc_args.add(n.id)
+                for a in list(st.value.args) + [k.value for k in st.value.keywords]:
+                    proc_args |= handed(a, scalars)
         # calls that are not known to be pure may write their array arguments
         for st, _ in order:
             for c in ast.walk(st):
                 if isinstance(c, ast.Call) and not (isinstance(c.func, ast.Name) and (c.func.id in pure or c.func.id in _NO_WRITE)):
                     for a in list(c.args) + [k.value for k in c.keywords]:
-                        for n in ast.walk(a):
-                            if isinstance(n, ast.Name):
-                                proc_args.add(n.id)
+                        proc_args |= handed(a, scalars)
 
         # a view of an array (slice, bare alias) that is written or handed to a procedure: the array itself may change
         for _ in range(3):
@@ -655,6 +739,97 @@ def _sort_operands(f):
     return T().visit(f)
 
 
+def _loop_order(f, pure):
+    """perfectly nested rectangular `for a in range(..): for b in range(..): B` whose iterations are independent of one another
+    (every array written in B is addressed by both counters, read only at the element being written; scalars of B are set before
+    they are read and die with the iteration; no procedure calls, no early exit) compute the same values in either nesting order:
+    the loops are put in the order of their counter names.  -> True when something was re-ordered"""
+    changed = [False]
+
+    def names(e):
+        return {n.id for n in ast.walk(e) if isinstance(n, ast.Name)}
+
+    def independent(outer, inner):
+        a, b = outer.target.id, inner.target.id
+        B = inner.body
+        for lp in (outer, inner):
+            if not (isinstance(lp.iter, ast.Call) and isinstance(lp.iter.func, ast.Name) and lp.iter.func.id == "range"
+                    and not lp.iter.keywords and 1 <= len(lp.iter.args) <= 3) or lp.orelse:
+                return False
+        stored = {n.id for st in B for n in ast.walk(st) if isinstance(n, ast.Name) and isinstance(n.ctx, ast.Store)}
+        if (names(outer.iter) | names(inner.iter)) & (stored | {a, b}):
+            return False
+        written = {}
+        for st in B:
+            for n in ast.walk(st):
+                if isinstance(n, (ast.Break, ast.Continue, ast.Return, ast.Raise, ast.While, ast.Global, ast.Nonlocal, ast.With, ast.Try,
+                                  ast.Delete, ast.Lambda, ast.ListComp, ast.GeneratorExp)):
+                    return False
+                if isinstance(n, ast.Expr) and not _is_docstring(n):
+                    return False          # a procedure call: may write a shared scratch array
+                if isinstance(n, ast.Call) and not (isinstance(n.func, ast.Name) and (n.func.id in pure or n.func.id in ("range", "len"))):
+                    return False
+                if isinstance(n, ast.Attribute) and isinstance(n.ctx, ast.Store):
+                    return False
+                if isinstance(n, ast.Subscript) and isinstance(n.ctx, ast.Store):
+                    if not isinstance(n.value, ast.Name):
+                        return False
+                    items = n.slice.elts if isinstance(n.slice, ast.Tuple) else [n.slice]
+                    plain = [it.id for it in items if isinstance(it, ast.Name)]
+                    if a not in plain or b not in plain:
+                        return False      # two iterations may write the same element
+                    written.setdefault(n.value.id, set()).add(ast.dump(n.slice))
+        if not written:
+            return False
+        for st in B:
+            for n in ast.walk(st):
+                if isinstance(n, ast.Name) and n.id in written and isinstance(n.ctx, ast.Load):
+                    par = getattr(n, "_lo_parent", None)
+                    if not (isinstance(par, ast.Subscript) and par.value is n and ast.dump(par.slice) in written[n.id]):
+                        return False      # reads another element (or the whole array) of an array written in the nest
+        # scalars: set at the top level of B before any read, not used outside the nest
+        scal = stored - {n.id for st in B for n in ast.walk(st) if isinstance(n, ast.For) for n in ast.walk(n.target) if isinstance(n, ast.Name)}
+        for x in scal:
+            first = next((st for st in B if x in names(st)), None)
+            if not (isinstance(first, ast.Assign) and len(first.targets) == 1 and isinstance(first.targets[0], ast.Name)
+                    and first.targets[0].id == x and x not in names(first.value)):
+                return False
+        inside = {id(n) for n in ast.walk(outer)}
+        for n in ast.walk(f):
+            if isinstance(n, ast.Name) and id(n) not in inside and n.id in (stored | {a, b}) and isinstance(n.ctx, ast.Load):
+                # a later read of a scalar of the nest or of a counter sees the value of the last iteration
+                if (getattr(n, "lineno", 0), getattr(n, "col_offset", 0)) > (outer.lineno, outer.col_offset):
+                    return False
+        return True
+
+    def go(block):
+        for st in block:
+            for fld in ("body", "orelse"):
+                b = getattr(st, fld, None)
+                if isinstance(b, list) and b and isinstance(b[0], ast.stmt):
+                    go(b)
+        for _ in range(4):
+            swapped = False
+            for st in block:
+                cur = st
+                while isinstance(cur, ast.For) and len(cur.body) == 1 and isinstance(cur.body[0], ast.For) \
+                        and isinstance(cur.target, ast.Name) and isinstance(cur.body[0].target, ast.Name):
+                    inner = cur.body[0]
+                    if cur.target.id > inner.target.id:
+                        for n in ast.walk(cur):
+                            for ch in ast.iter_child_nodes(n):
+                                ch._lo_parent = n
+                        if independent(cur, inner):
+                            cur.target, inner.target = inner.target, cur.target
+                            cur.iter, inner.iter = inner.iter, cur.iter
+                            swapped = changed[0] = True
+                    cur = inner
+            if not swapped:
+                break
+    go(f.body)
+    return changed[0]
+
+
 def module_constants(tree: ast.Module) -> dict:
     """module-level `NAME = <scalar expression>` bound once (e.g. TWO_PI = 2 * pi): usable inside the functions like a literal"""
     seen: dict[str, list] = {}
@@ -709,9 +884,208 @@ def _import_aliases(fn, tree):
     return ren, mods
 
 
+def _array_ranks(fn):
+    """{parameter: rank} from the annotations ('float[:,:]' -> 2, 'int' -> 0); parameters without a readable annotation are absent"""
+    out = {}
+    for a in fn.args.args:
+        if a.annotation is not None:
+            k = _type_kind(src(a.annotation))
+            if k is not None:
+                out[a.arg] = k[1]
+    return out
+
+
+def _scalarise_temps(f, ranks):
+    """T = empty_like(A) ... T[:] = E(A, scalars) ... T[k]   ->   ... E(A[k], scalars)      (T a local rank-1 scratch array written
+    once, as a whole, by an elementwise arithmetic expression and read element by element afterwards in the same block; the
+    operands of E are not changed in between): the vectorised temporary and the element formula are the same values"""
+    def names(e):
+        return {n.id for n in ast.walk(e) if isinstance(n, ast.Name)}
+    params = {a.arg for a in f.args.args}
+    for _ in range(6):
+        done = False
+        for k0, alloc in enumerate(f.body):
+            if not (isinstance(alloc, ast.Assign) and len(alloc.targets) == 1 and isinstance(alloc.targets[0], ast.Name)
+                    and isinstance(alloc.value, ast.Call) and isinstance(alloc.value.func, ast.Name) and not alloc.value.keywords
+                    and len(alloc.value.args) == 1):
+                continue
+            T, how, arg = alloc.targets[0].id, alloc.value.func.id, alloc.value.args[0]
+            if T in params:
+                continue
+            if how in ("empty_like", "zeros_like") and isinstance(arg, ast.Name) and ranks.get(arg.id) == 1:
+                length = ast.parse(f"{arg.id}.shape[0]", mode="eval").body
+            elif how in ("empty", "zeros") and all(isinstance(n, (ast.Name, ast.Constant, ast.BinOp, ast.operator, ast.expr_context, ast.Subscript,
+                                                                  ast.Attribute)) for n in ast.walk(arg)) and not isinstance(arg, (ast.Tuple, ast.List)):
+                length = arg
+            else:
+                continue
+            # every other occurrence of T
+            for n in ast.walk(f):
+                for ch in ast.iter_child_nodes(n):
+                    ch._sc_parent = n
+            occ = [n for n in ast.walk(f) if isinstance(n, ast.Name) and n.id == T and n is not alloc.targets[0]]
+            writes, reads, shapes, bad = [], [], [], False
+            for n in occ:
+                par = getattr(n, "_sc_parent", None)
+                if isinstance(par, ast.Subscript) and par.value is n:
+                    full = isinstance(par.slice, ast.Slice) and par.slice.lower is None and par.slice.upper is None and par.slice.step is None
+                    if isinstance(par.ctx, ast.Store) and full:
+                        writes.append(par)
+                    elif isinstance(par.ctx, ast.Load) and not isinstance(par.slice, (ast.Slice, ast.Tuple)):
+                        reads.append(par)
+                    else:
+                        bad = True
+                elif isinstance(par, ast.Attribute) and par.attr == "shape" and isinstance(getattr(par, "_sc_parent", None), ast.Subscript) \
+                        and isinstance(par._sc_parent.slice, ast.Constant) and par._sc_parent.slice.value == 0:
+                    shapes.append(par._sc_parent)
+                else:
+                    bad = True
+            if bad or len(writes) != 1 or not reads:
+                continue
+            W = getattr(writes[0], "_sc_parent", None)
+            if not (isinstance(W, ast.Assign) and len(W.targets) == 1 and W.targets[0] is writes[0]):
+                continue
+            E = W.value
+            # elementwise arithmetic over rank-1 array parameters, elements of rank-1 arrays and scalars
+            arrays, ok = set(), True
+            local_arrays = {n.value.id for n in ast.walk(f) if isinstance(n, ast.Subscript) and isinstance(n.value, ast.Name)} - params
+            for n in ast.walk(E):
+                par = getattr(n, "_sc_parent", None)
+                if isinstance(n, ast.Name):
+                    if isinstance(par, ast.Subscript) and par.value is n:
+                        if ranks.get(n.id) != 1 or isinstance(par.slice, (ast.Slice, ast.Tuple)):
+                            ok = False
+                    elif ranks.get(n.id) == 1:
+                        arrays.add(n.id)
+                    elif ranks.get(n.id, 0) != 0 or n.id in local_arrays or n.id == T:
+                        ok = False
+                    elif n.id not in params and n.id not in ranks and isinstance(par, ast.Attribute):
+                        ok = False
+                elif not isinstance(n, (ast.BinOp, ast.UnaryOp, ast.Constant, ast.Subscript, ast.operator, ast.unaryop, ast.expr_context)):
+                    ok = False
+                elif isinstance(n, ast.BinOp) and not isinstance(n.op, (ast.Add, ast.Sub, ast.Mult, ast.Div, ast.Mod, ast.Pow)):
+                    ok = False
+            if not ok or not arrays:
+                continue
+            # the block of the write; reads lie in the statements after it; operands unchanged there
+            block = None
+
+            def find(b):
+                nonlocal block
+                for st in b:
+                    if st is W:
+                        block = b
+                    for fld in ("body", "orelse"):
+                        bb = getattr(st, fld, None)
+                        if isinstance(bb, list) and bb and isinstance(bb[0], ast.stmt):
+                            find(bb)
+            find(f.body)
+            if block is None:
+                continue
+            after = block[block.index(W) + 1:]
+            inside = {id(n) for st in after for n in ast.walk(st)}
+            if any(id(r) not in inside for r in reads):
+                continue
+            operands = names(E)
+            changed_ = False
+            for st in after:
+                for n in ast.walk(st):
+                    if isinstance(n, ast.Name) and n.id in operands and isinstance(n.ctx, ast.Store):
+                        changed_ = True
+                    if isinstance(n, (ast.Subscript, ast.Attribute)) and isinstance(n.ctx, ast.Store):
+                        b_ = n
+                        while isinstance(b_, (ast.Subscript, ast.Attribute)):
+                            b_ = b_.value
+                        if isinstance(b_, ast.Name) and b_.id in operands:
+                            changed_ = True
+                    if isinstance(n, ast.Expr) and isinstance(n.value, ast.Call) and names(n.value) & operands:
+                        changed_ = True
+            if changed_:
+                continue
+            for r in reads:
+                idx = r.slice
+                if names(idx) & {T}:
+                    ok = False
+            if not ok:
+                continue
+
+            def element(idx):
+                e = ast.parse(ast.unparse(E), mode="eval").body
+                for n in ast.walk(e):
+                    for ch in ast.iter_child_nodes(n):
+                        ch._el_parent = n
+
+                class X(ast.NodeTransformer):
+                    def visit_Subscript(self, n):
+                        return n            # an element of an array: a scalar already
+
+                    def visit_Name(self, n):
+                        if n.id in arrays:
+                            return ast.Subscript(value=n, slice=ast.parse(ast.unparse(idx), mode="eval").body, ctx=ast.Load())
+                        return n
+                return X().visit(e)
+
+            class Rep(ast.NodeTransformer):
+                def visit_Subscript(self, n):
+                    if any(n is r for r in reads):
+                        return element(n.slice)
+                    if any(n is s_ for s_ in shapes):
+                        return ast.parse(ast.unparse(length), mode="eval").body
+                    self.generic_visit(n)
+                    return n
+            new_f = Rep().visit(f)
+            _remove_stmt(new_f, W)
+            _remove_stmt(new_f, alloc)
+            ast.fix_missing_locations(new_f)
+            done = True
+            break
+        if not done:
+            break
+    return f
+
+
+def _positional_calls(f, tree):
+    """g(a, b, der=0) -> g(a, b, 0) for the functions defined in the same module (keyword arguments put at their positions,
+    omitted trailing defaults written out): one spelling for one binding"""
+    defs = {st.name: st for st in tree.body if isinstance(st, ast.FunctionDef)}
+    local = {a.arg for a in f.args.args} | {n.id for n in ast.walk(f) if isinstance(n, ast.Name) and isinstance(n.ctx, ast.Store)}
+
+    class T(ast.NodeTransformer):
+        def visit_Call(self, n):
+            self.generic_visit(n)
+            if not (isinstance(n.func, ast.Name) and n.func.id in defs and n.func.id not in local):
+                return n
+            d = defs[n.func.id]
+            if d.args.vararg or d.args.kwarg or d.args.kwonlyargs or any(isinstance(a, ast.Starred) for a in n.args) \
+                    or any(k.arg is None for k in n.keywords):
+                return n
+            formals = [a.arg for a in d.args.args]
+            defaults = dict(zip(formals[len(formals) - len(d.args.defaults):], d.args.defaults))
+            kws = {k.arg: k.value for k in n.keywords}
+            if len(n.args) > len(formals) or any(k not in formals[len(n.args):] for k in kws) or len(kws) != len(n.keywords):
+                return n
+            out = list(n.args)
+            for p_ in formals[len(n.args):]:
+                if p_ in kws:
+                    out.append(kws[p_])
+                elif p_ in defaults and all(isinstance(x, (ast.Constant, ast.UnaryOp, ast.operator, ast.unaryop)) for x in ast.walk(defaults[p_])):
+                    out.append(ast.parse(ast.unparse(defaults[p_]), mode="eval").body)
+                else:
+                    return n
+            return ast.Call(func=n.func, args=out, keywords=[])
+    return ast.fix_missing_locations(T().visit(f))
+
+
 def canon_fn(fn: ast.FunctionDef, pure: set, tree: ast.Module = None) -> ast.FunctionDef:
     ren, mods = _import_aliases(fn, tree)
+    ranks = _array_ranks(fn)
     f = _strip(fn)
+    try:
+        f = _scalarise_temps(f, ranks)
+    except Exception:
+        f = _strip(fn)
+    if tree is not None:
+        f = _positional_calls(f, tree)
     if ren or mods:
         local = {a.arg for a in f.args.args} | {n.id for n in ast.walk(f) if isinstance(n, ast.Name) and isinstance(n.ctx, ast.Store)}
 
@@ -742,7 +1116,7 @@ def canon_fn(fn: ast.FunctionDef, pure: set, tree: ast.Module = None) -> ast.Fun
     _wrap_loops(f.body)
     _accumulators(f)
     f.body = _control(f.body) or [ast.Pass()]
-    f = _inline_temps(f, pure)
+    f = _inline_temps(f, pure, ranks)
     f.body = [s for s in f.body if not isinstance(s, ast.Pass)] or [ast.Pass()]
     f = _flatten_subscripts(f)
     f = _sort_operands(f)
@@ -972,6 +1346,109 @@ def consumers(chk):
 LIBS = [U.SPLINES, U.INTERP, U.ADV, U.ADVK, U.POISSON, U.INITIALISER, U.CU, U.NU, U.INITF, U.PTOOLS]
 
 
+def _single_local_binding(call, name):
+    """the one statement `name = <value>` of the function enclosing the call (None when bound more than once or not a plain
+    assignment), and the keys added afterwards by `name[<constant>] = value`"""
+    from ..core import enclosing_function
+    f = enclosing_function(call)
+    if f is None:
+        return None, None
+    binds, added, other = [], [], False
+    for n in ast.walk(f):
+        if isinstance(n, ast.Assign):
+            for t in n.targets:
+                if isinstance(t, ast.Name) and t.id == name:
+                    binds.append(n)
+                elif isinstance(t, ast.Subscript) and isinstance(t.value, ast.Name) and t.value.id == name:
+                    if isinstance(t.slice, ast.Constant) and isinstance(t.slice.value, str) and len(n.targets) == 1:
+                        added.append((t.slice.value, n.value, n))
+                    else:
+                        other = True
+                elif any(isinstance(x, ast.Name) and x.id == name and isinstance(x.ctx, ast.Store) for x in ast.walk(t)):
+                    other = True
+        elif isinstance(n, (ast.AugAssign, ast.AnnAssign, ast.For, ast.With, ast.NamedExpr, ast.Delete)):
+            if any(isinstance(x, ast.Name) and x.id == name and isinstance(x.ctx, (ast.Store, ast.Del)) for x in ast.walk(n)):
+                if not isinstance(n, ast.For) or any(isinstance(x, ast.Name) and x.id == name for x in ast.walk(n.target)):
+                    other = True
+        elif isinstance(n, ast.Call) and isinstance(n.func, ast.Attribute) and isinstance(n.func.value, ast.Name) and n.func.value.id == name \
+                and n.func.attr in ("update", "pop", "clear", "setdefault", "popitem", "append", "extend", "insert", "remove"):
+            other = True
+    if len(binds) != 1 or other or len(binds[0].targets) != 1 or any(a.arg == name for a in f.args.args + f.args.kwonlyargs):
+        return None, None
+    return binds[0], added
+
+
+def expand_call(call):
+    """positional arguments and keywords of a call with `*seq` / `**mapping` written out, when seq / mapping is a literal or a local
+    bound once to a literal (`dict(k=v, ...)`, `{'k': v}`, a tuple or list display) -> (args, {keyword: value}, problem);
+    problem: None, or a text saying which starred argument could not be followed, or ('twice', name)"""
+    args, kws, problem = [], {}, None
+
+    def literal_of(e, want):
+        """resolve a name to its literal; -> (node, added keys) or (None, None)"""
+        added = []
+        if isinstance(e, ast.Name):
+            b, added = _single_local_binding(call, e.id)
+            if b is None:
+                return None, None
+            # the binding must come before the call, later additions between binding and call count
+            if (b.lineno, b.col_offset) > (call.lineno, call.col_offset):
+                return None, None
+            added = [(k, v_) for k, v_, st in added if (st.lineno, st.col_offset) < (call.lineno, call.col_offset)] \
+                if all((st.lineno, st.col_offset) < (call.lineno, call.col_offset) for _, _, st in added) else None
+            if added is None:
+                return None, None
+            e = b.value
+        if isinstance(e, ast.Attribute) and isinstance(e.value, ast.Name) and e.value.id == "self":
+            # an attribute of the object bound exactly once in its class to a display
+            cls = parent(call)
+            while cls is not None and not isinstance(cls, ast.ClassDef):
+                cls = parent(cls)
+            sets = [n for n in ast.walk(cls) if isinstance(n, (ast.Assign, ast.AugAssign, ast.AnnAssign))
+                    for t in (n.targets if isinstance(n, ast.Assign) else [n.target])
+                    for x in ast.walk(t) if isinstance(x, ast.Attribute) and x.attr == e.attr and isinstance(x.value, ast.Name)
+                    and x.value.id == "self" and isinstance(x.ctx, ast.Store)] if cls is not None else []
+            if len(sets) != 1 or not isinstance(sets[0], ast.Assign) or len(sets[0].targets) != 1 or not isinstance(sets[0].targets[0], ast.Attribute):
+                return None, None
+            e = sets[0].value
+        if want == "seq" and isinstance(e, (ast.Tuple, ast.List)) and not any(isinstance(x, ast.Starred) for x in e.elts) and not added:
+            return e, []
+        if want == "map":
+            if isinstance(e, ast.Dict) and all(isinstance(k, ast.Constant) and isinstance(k.value, str) for k in e.keys):
+                return e, added
+            if isinstance(e, ast.Call) and isinstance(e.func, ast.Name) and e.func.id == "dict" and not e.args \
+                    and all(k.arg is not None for k in e.keywords):
+                return e, added
+        return None, None
+    for a in call.args:
+        if isinstance(a, ast.Starred):
+            lit, _ = literal_of(a.value, "seq")
+            if lit is None:
+                problem = problem or f"`*{src(a.value)[:30]}` is not a tuple/list display (or a local bound once to one)"
+                continue
+            args += list(lit.elts)
+        else:
+            args.append(a)
+    for k in call.keywords:
+        if k.arg is not None:
+            items = [(k.arg, k.value)]
+        else:
+            lit, added = literal_of(k.value, "map")
+            if lit is None:
+                problem = problem or f"`**{src(k.value)[:30]}` is not a dict display / dict(k=v, ...) (or a local bound once to one)"
+                continue
+            items = [(kk.value, vv) for kk, vv in zip(lit.keys, lit.values)] if isinstance(lit, ast.Dict) else [(kk.arg, kk.value) for kk in lit.keywords]
+            seen_here = {}
+            for kk, vv in items + list(added):
+                seen_here[kk] = vv          # a later `d['k'] = v` replaces the entry
+            items = list(seen_here.items())
+        for kk, vv in items:
+            if kk in kws and not isinstance(problem, tuple):
+                problem = ("twice", kk)
+            kws[kk] = vv
+    return args, kws, problem
+
+
 def keyword_calls(chk):
     """{function name: set of keyword names some library call passes}"""
     out: dict[str, set] = {}
@@ -981,45 +1458,105 @@ def keyword_calls(chk):
                 name = c.func.id if isinstance(c.func, ast.Name) else c.func.attr if isinstance(c.func, ast.Attribute) else None
                 if name:
                     out.setdefault(name, set()).update(k.arg for k in c.keywords if k.arg)
+                    if any(k.arg is None for k in c.keywords):
+                        _, kws, problem = expand_call(c)
+                        out[name].update(kws)
+                        if problem is not None and not isinstance(problem, tuple):
+                            out[name].add("**")          # keywords passed through a mapping that could not be followed
+    return out
+
+
+def library_calls(chk):
+    """{function name: [(file, call, positional arguments, {keyword: value}, problem)]} of the library calls by that name
+    (starred arguments written out, see expand_call)"""
+    cache = chk.__dict__.setdefault("_c19_libcalls", None)
+    if cache is not None:
+        return cache
+    out: dict[str, list] = {}
+    for rel in LIBS:
+        mod = chk.mod(rel)
+        for c in ast.walk(mod.tree):
+            if isinstance(c, ast.Call):
+                name = c.func.id if isinstance(c.func, ast.Name) else c.func.attr if isinstance(c.func, ast.Attribute) else None
+                if name is None or (isinstance(c.func, ast.Name) and (_shadowed(c, name) or not _imported(mod, name, c))):
+                    continue
+                args, kws, problem = expand_call(c)
+                out.setdefault(name, []).append((rel, c, args, kws, problem))
+    chk.__dict__["_c19_libcalls"] = out
     return out
 
 
 def parameter_lists(chk, fn, vf, q, kwcalls):
-    """calls written for the reference bind the same way in the copy -> (True/False/None, why)"""
+    """the library calls of the function (written for the reference) bind the same way in the copy -> (True/False/None, why)"""
     pa, pb = [a.arg for a in fn.args.args], [a.arg for a in vf.args.args]
     da, db = list(fn.args.defaults), list(vf.args.defaults)
     if vf.args.vararg or vf.args.kwarg or vf.args.kwonlyargs or fn.args.vararg or fn.args.kwarg or fn.args.kwonlyargs:
         same = ast.dump(_bare_args(fn)) == ast.dump(_bare_args(vf))
         return (True, "same parameter list") if same else (None, "variadic / keyword-only parameters: binding not compared")
-    if len(pb) < len(pa):
-        return False, (f"the copy takes {len(pb)} parameters {pb}, the reference {len(pa)} {pa}: a call that passes all arguments of the "
-                       "reference does not bind")
+    calls = library_calls(chk).get(q, [])
+    unfollowed = [c for c in calls if c[4] is not None and not isinstance(c[4], tuple)]
+
+    def at(c):
+        return f"{c[0].split('/')[-1]}:{c[1].lineno}"
     req_a, req_b = len(pa) - len(da), len(pb) - len(db)
-    if req_b > len(pa):
-        return False, (f"the copy requires {req_b} arguments {pb[:req_b]}, the reference takes only {len(pa)}: calls written for the "
+    if len(pb) < len(pa):
+        extra = pa[len(pb):]
+        hits = [c for c in calls if len(c[2]) > len(pb) or any(k in extra for k in c[3])]
+        if hits:
+            passed = extra[0] if len(hits[0][2]) > len(pb) else [k for k in hits[0][3] if k in extra][0]
+            return False, (f"the copy takes {len(pb)} parameters {pb}, the reference {len(pa)} {pa}; the call at {at(hits[0])} passes "
+                           f"`{passed}`, which the copy does not take: the call does not bind in the copy (TypeError)")
+        if len(pb) < req_a:
+            if not calls or unfollowed:
+                return None, (f"the copy takes {len(pb)} parameters, the reference requires {req_a}; no library call of `{q}` could be bound "
+                              "to show the mismatch")
+            return False, (f"the copy takes {len(pb)} parameters {pb}, the reference requires {req_a} {pa[:req_a]}: a call that passes the "
+                           "required arguments of the reference does not bind in the copy")
+        if unfollowed:
+            return None, (f"the reference has {len(extra)} more optional parameter(s) {extra} than the copy and the call at {at(unfollowed[0])} "
+                          "passes arguments through a starred expression that could not be followed")
+        note = f"the reference has {len(extra)} more optional parameter(s) {extra}, which none of the {len(calls)} library call(s) passes; "
+        pa_c, da_c = pa[:len(pb)], da[:len(da) - len(extra)]
+    else:
+        note, pa_c, da_c = "", pa, da
+    req_ac = len(pa_c) - len(da_c)
+    if req_b > len(pa_c):
+        return False, (f"the copy requires {req_b} arguments {pb[:req_b]}, the reference takes only {len(pa_c)}: calls written for the "
                        "reference do not bind")
-    if req_b > req_a:
-        lost = pa[req_a:req_b]
-        return False, (f"the copy has no default for {lost}, which the reference has ({[src(d) for d in da[:len(lost)]]}): calls that "
-                       "rely on the default fail, or the copy is called with other values than the reference")
+    if req_b > req_ac:
+        lost = pa_c[req_ac:req_b]
+        rely = [c for c in calls if any(pa_c.index(x) >= len(c[2]) and x not in c[3] for x in lost)]
+        if rely and not unfollowed:
+            return False, (f"the copy has no default for {lost}, which the reference has ({[src(d) for d in da_c[:len(lost)]]}); the call at "
+                           f"{at(rely[0])} relies on the default: it does not bind in the copy (TypeError)")
+        if unfollowed or not calls:
+            return None, f"the copy has no default for {lost}, which the reference has; whether a library call relies on it is not decided"
+        note += f"the copy has no default for {lost} (the reference has), but every one of the {len(calls)} library call(s) passes it; "
+        db = [None] * (req_b - req_ac) + db
+        req_b = req_ac
     # defaults of the shared optional parameters
-    for k in range(req_a, len(pa)):
-        ea, eb = da[k - req_a], db[k - req_b]
+    for k in range(max(req_ac, req_b), len(pa_c)):
+        ea, eb = da_c[k - req_ac], db[k - req_b]
+        if eb is None:
+            continue
         r = expr_same(ea, eb)
         if r is False:
             return False, (f"default of parameter {k + 1} `{pb[k]}` is `{src(eb)}`, the reference has `{src(ea)}`: a call that omits it "
                            "computes something else in the copy")
         if r is None:
             return None, f"defaults `{src(eb)}` / `{src(ea)}` of parameter {k + 1} not comparable"
-    renamed = [(x, y) for x, y in zip(pa, pb) if x != y]
+    renamed = [(x, y) for x, y in zip(pa_c, pb) if x != y]
     if renamed:
         used = sorted(x for x, _ in renamed if x in kwcalls.get(q, set()))
+        if not used and "**" in kwcalls.get(q, set()):
+            return None, (f"positional parameters renamed {renamed} and a library call passes keywords through a `**mapping` that could "
+                          "not be followed: whether a renamed parameter is passed by keyword is not decided")
         if used:
             return False, (f"parameters {used} of the reference are called {[y for x, y in renamed if x in used]} in the copy and a "
                            "library call passes them by keyword: the call does not bind in the copy")
-        return True, (f"positional parameters renamed {renamed}; no library call passes them by keyword; "
-                      "every default of the reference is kept")
-    return True, "same positional parameters; every default of the reference is kept"
+        return True, (note + f"positional parameters renamed {renamed}; no library call passes them by keyword; "
+                      "every default of the reference a call relies on is kept")
+    return True, note + "same positional parameters; every default of the reference a call relies on is kept"
 
 
 def _bare_args(fn):
@@ -1049,11 +1586,609 @@ def _rename_params(vf, pa):
     return f
 
 
+# ---------------------------------------------------------------------------------------------------------
+# engine G: a loop-free value function as a table of guarded values.  Every path through the `if`s of the body is
+# followed symbolically (locals substituted forward, conditions collected as linear (in)equalities over the inputs and
+# over opaque terms such as int(...)); two functions are the same when, on every pair of paths that can be taken by
+# the same input, the returned values are equal under the equalities of the path.  They differ when some pair of
+# paths is jointly satisfiable (decided by Fourier-Motzkin elimination, integers tightened) and a returned value
+# differs there.  Nothing is executed: the table is a symbolic normal form of the body.
+# ---------------------------------------------------------------------------------------------------------
+
+class _NotTabular(Exception):
+    pass
+
+
+_SYM_FUNCS = ("sqrt", "exp", "tanh", "cos", "sin", "tan", "log")
+_MAX_PATHS = 48
+
+
+def _g_table(fn, tree, pure, shared=None):
+    """-> [(conditions, values, stores)]: conditions a list of (sympy expression e, op) meaning `e op 0` with op in '<', '<=',
+    '==', or ('bool', term, polarity); values a tuple of sympy expressions; stores {(array parameter, index tuple): value}"""
+    import sympy as sp
+    ren, mods = _import_aliases(fn, tree)
+    consts = module_constants(tree) if tree is not None else {}
+    imported = set()
+    for n in list(ast.walk(fn)) + list(tree.body if tree is not None else []):
+        if isinstance(n, (ast.Import, ast.ImportFrom)):
+            imported |= {(a.asname or a.name).split(".")[0] for a in n.names}
+    f = _strip(fn)
+    params = [a.arg for a in f.args.args]
+    if f.args.vararg or f.args.kwarg or f.args.kwonlyargs:
+        raise _NotTabular("variadic parameters")
+    assigned = {n.id for n in ast.walk(f) if isinstance(n, ast.Name) and isinstance(n.ctx, ast.Store)}
+
+    def sym(e, env, depth=0):
+        if isinstance(e, ast.Constant):
+            if e.value is None:
+                return sp.Symbol("None_")
+            if isinstance(e.value, bool) or not isinstance(e.value, (int, float)):
+                raise _NotTabular("constant " + repr(e.value))
+            return sp.Integer(e.value) if isinstance(e.value, int) else sp.Rational(repr(e.value))
+        if isinstance(e, ast.Name):
+            if e.id in env:
+                if env[e.id] is _G_ARRAY:
+                    raise _NotTabular(f"the local array `{e.id}` is used as a whole")
+                return env[e.id]
+            if e.id in assigned:
+                raise _NotTabular(f"`{e.id}` read before it is bound on this path")
+            name = ren.get(e.id, e.id)
+            if name in consts and depth < 4:
+                return sym(consts[name], {}, depth + 1)
+            if name in imported or e.id in imported:
+                return sp.Symbol(name)
+            raise _NotTabular(f"free name `{e.id}`")
+        if isinstance(e, ast.Attribute):
+            if isinstance(e.value, ast.Name) and e.value.id in mods and e.value.id not in env and e.attr == "pi":
+                return sp.Symbol("pi")
+            raise _NotTabular("attribute " + src(e))
+        if isinstance(e, ast.UnaryOp) and isinstance(e.op, (ast.USub, ast.UAdd)):
+            v_ = sym(e.operand, env, depth)
+            return -v_ if isinstance(e.op, ast.USub) else v_
+        if isinstance(e, ast.BinOp):
+            a, b = sym(e.left, env, depth), sym(e.right, env, depth)
+            if isinstance(e.op, ast.Add):
+                return a + b
+            if isinstance(e.op, ast.Sub):
+                return a - b
+            if isinstance(e.op, ast.Mult):
+                return a * b
+            if isinstance(e.op, ast.Div):
+                return a / b
+            if isinstance(e.op, ast.Pow):
+                return a ** b
+            if isinstance(e.op, ast.FloorDiv):
+                return sp.Function("floordiv_")(a, b)
+            if isinstance(e.op, ast.Mod):
+                return sp.Function("pymod_")(a, b)
+            raise _NotTabular("operator in " + src(e))
+        if isinstance(e, ast.Call):
+            if e.keywords or any(isinstance(a, ast.Starred) for a in e.args):
+                raise _NotTabular("call " + src(e))
+            if isinstance(e.func, ast.Name):
+                name = ren.get(e.func.id, e.func.id)
+            elif isinstance(e.func, ast.Attribute) and isinstance(e.func.value, ast.Name) and e.func.value.id in mods:
+                name = e.func.attr
+            else:
+                raise _NotTabular("call " + src(e))
+            if name in env or name in params:
+                raise _NotTabular("call of a local " + name)
+            args = [sym(a, env, depth) for a in e.args]
+            if name == "int" and len(args) == 1:
+                return args[0] if args[0].is_Integer else sp.Function("int_")(sp.expand(args[0]))
+            if name in ("float", "real") and len(args) == 1:
+                return args[0]
+            if name in _SYM_FUNCS and len(args) == 1:
+                return getattr(sp, name)(args[0])
+            if name in pure and (shared is None or name in shared or name in imported or name in _MATH_PURE):
+                return sp.Function("call_" + name)(*[sp.expand(a) for a in args])
+            if name in pure:
+                raise _NotTabular(f"`{name}` is defined in one of the two modules only")
+            raise _NotTabular(f"call of `{name}` (not known to be side-effect free)")
+        if isinstance(e, ast.Subscript):
+            items = e.slice.elts if isinstance(e.slice, ast.Tuple) else [e.slice]
+            if any(isinstance(it, ast.Slice) for it in items):
+                raise _NotTabular("slice " + src(e))
+            if isinstance(e.value, ast.Attribute) and e.value.attr == "shape" and isinstance(e.value.value, ast.Name) \
+                    and e.value.value.id in params and len(items) == 1 and isinstance(items[0], ast.Constant):
+                return sp.Symbol(f"{e.value.value.id}_shape_{items[0].value}")
+            if isinstance(e.value, ast.Name) and (e.value.id in params and e.value.id not in assigned or env.get(e.value.id) is _G_ARRAY):
+                X = e.value.id
+                idx = tuple(sp.expand(sym(it, env, depth)) for it in items)
+                if ("@", X, idx) in env:
+                    return env[("@", X, idx)]          # the element stored earlier on this path
+                for k_ in env:
+                    if isinstance(k_, tuple) and k_[0] == "@" and k_[1] == X and not _g_distinct(k_[2], idx):
+                        raise _NotTabular(f"`{src(e)}` may be an element stored earlier on the path")
+                if env.get(X) is _G_ARRAY:
+                    raise _NotTabular(f"`{src(e)}` reads an element of a local array that was not stored on this path")
+                return sp.Function("at_" + X)(*idx)
+            raise _NotTabular("subscript " + src(e))
+        raise _NotTabular("expression " + src(e)[:40])
+
+    def cond(e, env, positive):
+        """disjunctive normal form of the test (or of its negation): a list of conjunctions"""
+        if isinstance(e, ast.UnaryOp) and isinstance(e.op, ast.Not):
+            return cond(e.operand, env, not positive)
+        if isinstance(e, ast.BoolOp):
+            parts = [cond(x, env, positive) for x in e.values]
+            conj = isinstance(e.op, ast.And) == positive          # De Morgan
+            if not conj:
+                return [c for p in parts for c in p]
+            out = [[]]
+            for p in parts:
+                out = [a + b for a in out for b in p]
+                if len(out) > _MAX_PATHS:
+                    raise _NotTabular("condition too large")
+            return out
+        if isinstance(e, ast.Compare):
+            links, left = [], e.left
+            for op, right in zip(e.ops, e.comparators):
+                links.append((left, op, right))
+                left = right
+            parts = []
+            for l, op, r in links:
+                if isinstance(op, (ast.Is, ast.IsNot, ast.In, ast.NotIn)):
+                    raise _NotTabular("comparison " + src(e))
+                d = sym(l, env) - sym(r, env)
+                kind = type(op)
+                if not positive:
+                    kind = {ast.Lt: ast.GtE, ast.LtE: ast.Gt, ast.Gt: ast.LtE, ast.GtE: ast.Lt, ast.Eq: ast.NotEq, ast.NotEq: ast.Eq}[kind]
+                parts.append({ast.Lt: [[(d, "<")]], ast.LtE: [[(d, "<=")]], ast.Gt: [[(-d, "<")]], ast.GtE: [[(-d, "<=")]],
+                              ast.Eq: [[(d, "==")]], ast.NotEq: [[(d, "<")], [(-d, "<")]]}[kind])
+            if positive:
+                out = [[]]
+                for p in parts:
+                    out = [a + b for a in out for b in p]
+                return out
+            return [c for p in parts for c in p]
+        if isinstance(e, ast.Constant) and isinstance(e.value, bool):
+            return [[]] if e.value == positive else []
+        return [[("bool", sym(e, env), positive)]]
+
+    out = []
+
+    def stores_of(env):
+        """what the path leaves in the arrays of the caller: {(array, index): value}"""
+        return {(k_[1], k_[2]): v_ for k_, v_ in env.items() if isinstance(k_, tuple) and k_[0] == "@" and k_[1] in params}
+
+    def run(block, states):
+        for st in block:
+            if not states:
+                return []
+            if isinstance(st, (ast.Import, ast.ImportFrom, ast.Pass)) or _is_docstring(st):
+                continue
+            if isinstance(st, ast.Assign) and len(st.targets) == 1 and isinstance(st.targets[0], ast.Name) and isinstance(st.value, ast.Call) \
+                    and isinstance(st.value.func, ast.Name) and ren.get(st.value.func.id, st.value.func.id) in ("empty", "empty_like") \
+                    and st.value.func.id not in params:
+                for env, cs in states:
+                    for k_ in [k_ for k_ in env if isinstance(k_, tuple) and k_[1] == st.targets[0].id]:
+                        del env[k_]
+                    env[st.targets[0].id] = _G_ARRAY          # a fresh scratch array: its elements exist once they are stored
+            elif isinstance(st, ast.Assign) and len(st.targets) == 1 and isinstance(st.targets[0], ast.Name):
+                for env, cs in states:
+                    env[st.targets[0].id] = sym(st.value, env)
+            elif isinstance(st, ast.Assign) and len(st.targets) == 1 and isinstance(st.targets[0], ast.Subscript) \
+                    and isinstance(st.targets[0].value, ast.Name):
+                t = st.targets[0]
+                X = t.value.id
+                items = t.slice.elts if isinstance(t.slice, ast.Tuple) else [t.slice]
+                if any(isinstance(it, ast.Slice) for it in items):
+                    raise _NotTabular("store into a slice " + src(t))
+                for env, cs in states:
+                    if not (X in params and X not in assigned or env.get(X) is _G_ARRAY):
+                        raise _NotTabular("store into " + src(t))
+                    val = sym(st.value, env)
+                    idx = tuple(sp.expand(sym(it, env)) for it in items)
+                    for k_ in env:
+                        if isinstance(k_, tuple) and k_[0] == "@" and k_[1] == X and k_[2] != idx and not _g_distinct(k_[2], idx):
+                            raise _NotTabular(f"`{src(t)}` may overwrite an element stored earlier on the path")
+                    env[("@", X, idx)] = val
+            elif isinstance(st, ast.Assign) and len(st.targets) == 1 and isinstance(st.targets[0], ast.Tuple) \
+                    and all(isinstance(t, ast.Name) for t in st.targets[0].elts):
+                names = [t.id for t in st.targets[0].elts]
+                for env, cs in states:
+                    if isinstance(st.value, ast.Tuple) and len(st.value.elts) == len(names):
+                        vals = [sym(x, env) for x in st.value.elts]
+                    elif isinstance(st.value, ast.Call):
+                        whole = sym(st.value, env)
+                        if not isinstance(whole, sp.Basic) or not whole.func.__name__.startswith("call_"):
+                            raise _NotTabular("unpacking " + src(st.value)[:40])
+                        vals = [sp.Function(f"{whole.func.__name__}_{k}")(*whole.args) for k in range(len(names))]
+                    else:
+                        raise _NotTabular("unpacking " + src(st.value)[:40])
+                    for nm, v_ in zip(names, vals):
+                        env[nm] = v_
+            elif isinstance(st, ast.If):
+                nxt = []
+                for env, cs in states:
+                    for conj in cond(st.test, env, True):
+                        nxt += run(st.body, [(dict(env), cs + conj)])
+                    for conj in cond(st.test, env, False):
+                        nxt += run(st.orelse, [(dict(env), cs + conj)])
+                    if len(nxt) + len(out) > _MAX_PATHS:
+                        raise _NotTabular("too many paths")
+                states = nxt
+            elif isinstance(st, ast.Return):
+                for env, cs in states:
+                    if st.value is None:
+                        vals = ()
+                    elif isinstance(st.value, ast.Tuple):
+                        vals = tuple(sym(x, env) for x in st.value.elts)
+                    else:
+                        vals = (sym(st.value, env),)
+                    out.append((cs, vals, stores_of(env)))
+                return []
+            else:
+                raise _NotTabular(f"statement `{src(st).splitlines()[0][:40]}`")
+        return states
+    rest = run(f.body, [({p: sp.Symbol(p) for p in params}, [])])
+    for env, cs in rest:
+        out.append((cs, (), stores_of(env)))
+    return out
+
+
+_G_ARRAY = object()
+
+
+def _g_distinct(i1, i2):
+    """two index tuples that cannot address the same element: some coordinate differs by a non-zero number"""
+    import sympy as sp
+    if len(i1) != len(i2):
+        return False
+    for a, b in zip(i1, i2):
+        d = sp.expand(a - b)
+        if d.is_number and d != 0:
+            return True
+    return False
+
+
+def _g_linear(e):
+    """sympy expression -> ({term: Fraction}, Fraction): rational-linear form over its non-numeric terms"""
+    import sympy as sp
+    from fractions import Fraction
+    e = sp.expand(e)
+    lin, const = {}, Fraction(0)
+    for term, c in e.as_coefficients_dict().items():
+        if not getattr(c, "is_Rational", False):
+            raise _NotTabular("coefficient")
+        c = Fraction(int(c.p), int(c.q))
+        if term == 1:
+            const += c
+        elif c != 0:
+            lin[term] = lin.get(term, Fraction(0)) + c
+    return {t: c for t, c in lin.items() if c != 0}, const
+
+
+def _g_fm(cons, order):
+    """Fourier-Motzkin elimination of the terms in `order`; cons: [(lin, const, strict)] meaning lin + const (< | <=) 0.
+    -> False when a contradiction between constants appears, else the remaining constraints"""
+    for a in order:
+        lo, up, rest = [], [], []
+        for d, c, s in cons:
+            k = d.get(a, 0)
+            (rest if k == 0 else up if k > 0 else lo).append((d, c, s))
+        for d1, c1, s1 in up:
+            for d2, c2, s2 in lo:
+                m1, m2 = -d2[a], d1[a]
+                d = {}
+                for t in set(d1) | set(d2):
+                    x = m1 * d1.get(t, 0) + m2 * d2.get(t, 0)
+                    if x != 0 and t != a:
+                        d[t] = x
+                rest.append((d, m1 * c1 + m2 * c2, s1 or s2))
+        if len(rest) > 400:
+            raise _NotTabular("elimination too large")
+        cons = []
+        for d, c, s in rest:
+            if not d:
+                if c > 0 or (s and c == 0):
+                    return False
+                continue
+            cons.append((d, c, s))
+    for d, c, s in cons:
+        if not d and (c > 0 or (s and c == 0)):
+            return False
+    return [x for x in cons if x[0]]
+
+
+def _g_feasible(ineqs, int_syms):
+    """is the conjunction of `e < 0` / `e <= 0` (ineqs: [(sympy e, strict)]) satisfiable?  True / False / None.
+    `False` is always sound (terms are treated as independent unknowns, which only adds solutions); `True` is given only when
+    the terms are independent (symbols, one application per opaque function, monomials with a private factor), int(...) terms
+    are tied to their argument by the definition of truncation, and the integer part is a system of difference constraints
+    (for which rational and integer satisfiability coincide after tightening)."""
+    import itertools
+    import math
+    import sympy as sp
+    from fractions import Fraction
+    from sympy.core.function import AppliedUndef
+    ints = set()
+    for e, _ in ineqs:
+        ints |= {a for a in e.atoms(AppliedUndef) if a.func.__name__ == "int_"}
+    exact = len(ints) <= 3
+    cases = [[]]
+    if exact:
+        for t in sorted(ints, key=str):
+            arg = t.args[0]
+            # t = trunc(arg), t an integer:  arg >= 0 and t <= arg < t + 1   or   arg < 0 and t - 1 < arg <= t
+            cases = [c + alt for c in cases for alt in ([(-arg, False), (t - arg, False), (arg - t - 1, True)],
+                                                        [(arg, True), (arg - t, False), (t - 1 - arg, True)])]
+    any_feasible, all_decided = False, True
+    for extra in cases:
+        cons = []
+        for e, strict in list(ineqs) + extra:
+            lin, const = _g_linear(e)
+            cons.append((lin, const, strict))
+        terms = []
+        for lin, _, _ in cons:
+            for t in lin:
+                if t not in terms:
+                    terms.append(t)
+
+        def is_int(t):
+            return (t.is_Symbol and (t.name in int_syms or "_shape_" in t.name)) or (isinstance(t, AppliedUndef) and t.func.__name__ == "int_")
+        reals = [t for t in terms if not is_int(t)]
+        integers = [t for t in terms if is_int(t)]
+        ok_terms = exact
+        fnames = [t.func.__name__ for t in terms if isinstance(t, AppliedUndef)]
+        for t in reals:
+            if t.is_Symbol:
+                continue
+            if isinstance(t, AppliedUndef):
+                # only the content of an array element on entry is a free unknown (one element per array); the result of a
+                # function call is not: the function is a particular one
+                if fnames.count(t.func.__name__) > 1 or not t.func.__name__.startswith("at_"):
+                    ok_terms = False
+                continue
+            others = set()
+            for u in terms:
+                if u is not t and not (isinstance(u, AppliedUndef) and u.func.__name__ == "int_"):
+                    others |= u.free_symbols
+            private = [s_ for s_ in t.free_symbols if s_ not in others and (t / s_).free_symbols.isdisjoint({s_})
+                       and sp.numer(sp.together(t / s_)).is_number] \
+                if t.is_Mul or t.is_Pow else []       # t = s * c / (something without s): any value, whatever the other terms are
+            if not private:
+                ok_terms = False
+        left = _g_fm(cons, reals)
+        if left is False:
+            continue
+        # integer part: scale to integer coefficients, tighten, test the difference form
+        tight, diff_form = [], True
+        for d, c, s in left:
+            m = 1
+            for x in d.values():
+                m = m * x.denominator // math.gcd(m, x.denominator)
+            coeffs = {t: int(x * m) for t, x in d.items()}
+            g = 0
+            for x in coeffs.values():
+                g = math.gcd(g, abs(x))
+            bound = -(c * m) / g
+            coeffs = {t: x // g for t, x in coeffs.items()}
+            b = math.floor(bound) if not s else math.ceil(bound) - 1
+            tight.append(({t: Fraction(x) for t, x in coeffs.items()}, Fraction(-b), False))
+            vals = sorted(coeffs.values())
+            if not (vals in ([1], [-1], [-1, 1])):
+                diff_form = False
+        res = _g_fm(tight, integers)
+        if res is False:
+            continue
+        any_feasible = True
+        if ok_terms and diff_form:
+            return True
+        all_decided = False
+    if not any_feasible:
+        return False
+    return None
+
+
+def _g_generic_nonzero(d, ineqs, int_syms):
+    """d (reference value minus copy value) is a non-zero polynomial / rational function of independent inputs (scalar parameters,
+    initial contents of array elements) and the region described by `ineqs` has non-empty interior in the real inputs and does
+    not restrict the integer ones: then d cannot vanish on the whole region -> True; anything else -> False (no claim)"""
+    import sympy as sp
+    from sympy.core.function import AppliedUndef
+    try:
+        num = sp.expand(sp.numer(sp.together(d)))
+        if num == 0:
+            return False
+        funcs = list(num.atoms(AppliedUndef))
+        if any(not f_.func.__name__.startswith("at_") or not all(a.is_number for a in f_.args) for f_ in funcs):
+            return False
+        if any(isinstance(f_, sp.Function) and not isinstance(f_, AppliedUndef) for f_ in num.atoms(sp.Function)):
+            return False
+        gens = sorted(num.free_symbols, key=str) + sorted(funcs, key=str)
+        if not gens or any(g.is_Symbol and g.name in ("None_",) for g in gens):
+            return False
+        sp.Poly(num, *gens)           # raises when num is not a polynomial in them
+        int_gens = {g for g in gens if g.is_Symbol and (g.name in int_syms or "_shape_" in g.name)}
+        for e, _ in ineqs:
+            if e.free_symbols & int_gens:
+                return False
+        return _g_feasible([(e, True) for e, _ in ineqs], int_syms) is True
+    except Exception:
+        return False
+
+
+def _g_show(e):
+    import sympy as sp
+    t = sp.sstr(e)
+    t = re.sub(r"\bat_(\w+)\(([^()]*)\)", r"\1[\2]", t)          # content of an array element on entry
+    return re.sub(r"\b(int|floordiv|pymod)_\(", r"\1(", t).replace("None_", "None")
+
+
+def _g_compare(TA, TB, int_syms):
+    """reference table against copy table -> (True, n pairs) / (False, diagnosis) / (None, reason)"""
+    import sympy as sp
+    unknown = None
+    npairs = 0
+    found = []          # (rank, text): rank 0 = the values differ for every input of the region, 1 = for some
+    for ca, va, sta in TA:
+        for cb, vb, stb in TB:
+            conj = list(ca) + list(cb)
+            bools = {}
+            clash = False
+            for c in conj:
+                if c[0] == "bool":
+                    if bools.setdefault(sp.sstr(c[1]), c[2]) != c[2]:
+                        clash = True
+            if clash:
+                continue
+            arith = [(c[0], c[1]) for c in conj if c[0] != "bool"]
+            # equalities of the path: solved for a term and substituted everywhere
+            subs, pending, eq_left = {}, [e for e, op in arith if op == "=="], []
+            dead = False
+            while pending:
+                e = sp.expand(pending.pop(0).xreplace(subs))
+                if e == 0:
+                    continue
+                if e.is_number:
+                    dead = True
+                    break
+                try:
+                    lin, const = _g_linear(e)
+                except _NotTabular:
+                    eq_left.append(e)
+                    continue
+                # (an int(...) term is never substituted away: it is tied to its argument by the truncation axioms)
+                cands = [t for t in lin if (t.is_Symbol or t.is_Function) and not (t.is_Function and t.func.__name__ == "int_")]
+                real_c = [t for t in cands if not (t.is_Symbol and t.name in int_syms)]
+                unit_c = [t for t in cands if abs(lin[t]) == 1]
+                pick = (real_c or unit_c or [None])[0]
+                if pick is None:
+                    eq_left.append(e)
+                    continue
+                sol = sp.expand(pick - e / sp.Rational(lin[pick].numerator, lin[pick].denominator))
+                subs = {k: sp.expand(v_.xreplace({pick: sol})) for k, v_ in subs.items()}
+                subs[pick] = sol
+            if dead:
+                continue
+            ineqs = [(sp.expand(e.xreplace(subs)), op == "<") for e, op in arith if op != "=="]
+            for e in eq_left:
+                ineqs += [(e, False), (-e, False)]
+            if any(e.is_number and (e > 0 or (s and e == 0)) for e, s in ineqs):
+                continue
+            seen_c, uniq = set(), []
+            for e, s_ in ineqs:
+                if not e.is_number and (sp.sstr(e), s_) not in seen_c:
+                    seen_c.add((sp.sstr(e), s_))
+                    uniq.append((e, s_))
+            ineqs = uniq
+            try:
+                feas = _g_feasible(ineqs, int_syms)
+            except _NotTabular:
+                feas = None
+            if feas is False:
+                continue
+            npairs += 1
+            where = " and ".join(f"{_g_show(e)} {'<' if s else '<='} 0" for e, s in ineqs)
+            if subs:
+                where += (" and " if where else "") + " and ".join(f"{_g_show(k)} == {_g_show(v_)}" for k, v_ in subs.items())
+            where = ("with " + where) if where else "whatever their values"
+            if len(va) != len(vb):
+                if feas is True:
+                    found.append((0, f"for inputs {where} the copy returns {len(vb)} value(s) where the reference returns {len(va)}"))
+                else:
+                    unknown = unknown or f"different number of returned values on paths whose joint satisfiability is not decided ({where})"
+                continue
+            # what the two paths leave behind: returned values, and elements of the caller's arrays (an element one side does not
+            # store keeps its initial value)
+            items = [(f"returned value {k + 1}", x, y) for k, (x, y) in enumerate(zip(va, vb))]
+            ka = {(X, tuple(sp.expand(i_.xreplace(subs)) for i_ in idx)): v_ for (X, idx), v_ in sta.items()}
+            kb = {(X, tuple(sp.expand(i_.xreplace(subs)) for i_ in idx)): v_ for (X, idx), v_ in stb.items()}
+            for key in list(ka) + [k_ for k_ in kb if k_ not in ka]:
+                init = sp.Function("at_" + key[0])(*key[1])
+                items.append((f"the element {key[0]}[{', '.join(_g_show(i_) for i_ in key[1])}]", ka.get(key, init), kb.get(key, init)))
+            for label, x, y in items:
+                d = sp.expand((x - y).xreplace(subs))
+                if d != 0:
+                    d = sp.expand(sp.simplify(d))
+                if d == 0:
+                    continue
+                if d.is_number:
+                    if not d.is_real:
+                        lt = gt = None
+                    else:
+                        lt, gt = (feas, False) if d < 0 else (False, feas)
+                else:
+                    try:
+                        lt, gt = _g_feasible(ineqs + [(d, True)], int_syms), _g_feasible(ineqs + [(-d, True)], int_syms)
+                    except _NotTabular:
+                        lt = gt = None
+                if lt is False and gt is False:
+                    continue          # the two values coincide wherever both paths are taken
+                if lt is not True and gt is not True and _g_generic_nonzero(d, ineqs, int_syms):
+                    found.append((1, f"for inputs {where} {label} is `{_g_show(sp.expand(y.xreplace(subs)))}` in the copy and "
+                                  f"`{_g_show(sp.expand(x.xreplace(subs)))}` in the reference (reference minus copy: `{_g_show(d)}`, a polynomial "
+                                  "in the inputs that is not the zero polynomial, on a region with non-empty interior: it does not vanish "
+                                  "everywhere there)"))
+                    break
+                if lt is True or gt is True:
+                    always = (lt is False or gt is False) and feas is True
+                    sign = "<" if lt is True and gt is not True else ">" if gt is True and lt is not True else "!="
+                    found.append((0 if always else 1,
+                                  f"for {'every input' if always else 'inputs'} {where} {label} is `{_g_show(sp.expand(y.xreplace(subs)))}` "
+                                  f"in the copy and `{_g_show(sp.expand(x.xreplace(subs)))}` in the reference (reference minus copy: `{_g_show(d)}`, "
+                                  + (f"which is {sign} 0 on all of this region; the region is not empty" if always else
+                                     f"and these conditions are satisfiable together with `{_g_show(d)} {sign} 0`") + ")"))
+                    break
+                unknown = unknown or (f"{label} is `{_g_show(y)}` against `{_g_show(x)}` for inputs {where}; whether such "
+                                      "inputs exist / whether the values differ there is not decided")
+    if found:
+        found.sort(key=lambda t: t[0])
+        return False, "; ".join(t for _, t in found[:2]) + (f" (and {len(found) - 2} more region(s))" if len(found) > 2 else "") + \
+            ": the two functions return different results for the same arguments"
+    if unknown:
+        return None, unknown
+    return True, npairs
+
+
+def guarded_values(chk, ref, v, q, fn, vfr, vm, pure):
+    """engine G on one function pair -> (True/False/None, text)"""
+    try:
+        shared = {n for n in chk.mod(ref).functions() if "." not in n} & {n for n in vm.functions() if "." not in n}
+        TA = _g_table(fn, chk.mod(ref).tree, pure, shared)
+        TB = _g_table(vfr, vm.tree, pure, shared)
+    except _NotTabular as e:
+        return None, f"not a loop-free function ({e})"
+    if not any(vals or sts for _, vals, sts in TA):
+        return None, "the function returns no value and stores nothing"
+    int_syms = {a.arg for a in fn.args.args if a.annotation is not None and re.fullmatch(r"['\"]?\s*int\d*\s*['\"]?", src(a.annotation))}
+    try:
+        return _g_compare(TA, TB, int_syms)
+    except _NotTabular as e:
+        return None, f"guarded values not comparable ({e})"
+
+
 def body_equivalence(chk, ref, v, q, fn, vf, vm, flavour, pure):
     """V4 ladder: identical / identical in canonical form / proved against the specification formula / same statements with
     expressions compared one by one -> True (proved), False (violation recorded), None (undecided, recorded)"""
     R = "V4-body-equivalence"
     con = f"{v}:{q}"
+    # API generalisation of the reference: optional parameters the copy does not have and no library call passes are bound to
+    # their defaults; the copy is compared with that specialisation (what every library call computes)
+    pa_, pb_ = [a.arg for a in fn.args.args], [a.arg for a in vf.args.args]
+    if len(pb_) < len(pa_) and not (fn.args.vararg or fn.args.kwarg or fn.args.kwonlyargs):
+        extra = pa_[len(pb_):]
+        dflt = dict(zip(pa_[len(pa_) - len(fn.args.defaults):], fn.args.defaults))
+        calls = library_calls(chk).get(q, [])
+        passed = any(len(c[2]) > len(pb_) or any(k in extra for k in c[3]) or (c[4] is not None and not isinstance(c[4], tuple)) for c in calls)
+        stored = {n.id for n in ast.walk(fn) if isinstance(n, ast.Name) and isinstance(n.ctx, ast.Store)}
+        if calls and not passed and all(x in dflt and isinstance(dflt[x], (ast.Constant, ast.UnaryOp)) for x in extra) and not (set(extra) & stored):
+            spec = ast.parse(ast.unparse(fn)).body[0]
+            keep = len(spec.args.defaults) - len(extra)
+            spec.args.args = spec.args.args[:len(pb_)]
+            spec.args.defaults = spec.args.defaults[:keep] if keep > 0 else []
+            k0 = 1 if spec.body and _is_docstring(spec.body[0]) else 0
+            spec.body[k0:k0] = [ast.Assign(targets=[ast.Name(id=x, ctx=ast.Store())], value=ast.parse(ast.unparse(dflt[x]), mode="eval").body)
+                                for x in extra]
+            ast.fix_missing_locations(spec)
+            spec._qual = getattr(fn, "_qual", q)
+            chk.ob(R, vf, f"{con}: reference specialised", True, f"the reference takes {len(extra)} optional parameter(s) {extra} that the copy "
+                   f"does not have; none of the {len(calls)} library call(s) passes them, so the copy is compared with the reference at "
+                   f"their defaults ({', '.join(x + '=' + src(dflt[x]) for x in extra)})", file=v, func=q, nontrivial=False)
+            fn = spec
     if norm_fn(fn) == norm_fn(vf):
         chk.ob(R, vf, con, True, "AST-identical to the reference after stripping decorators, annotations, docstrings and local "
                "imports", file=v, func=q)
@@ -1073,6 +2208,19 @@ def body_equivalence(chk, ref, v, q, fn, vf, vm, flavour, pure):
                "written back, result variable / early return, `if` arms with one body, shape unpacking, `+=`, operand order of + and *)",
                file=v, func=q)
         return True
+    if ca is not None:
+        # nests of independent loops in one order (only when the bodies differ: the engines see the loops as written)
+        try:
+            ra, rb = ast.parse(ast.unparse(ca)).body[0], ast.parse(ast.unparse(cb)).body[0]
+            if _loop_order(ra, pure) | _loop_order(rb, pure):
+                ca, cb = ast.parse(ast.unparse(ra)).body[0], ast.parse(ast.unparse(rb)).body[0]
+                if ast.dump(ca) == ast.dump(cb):
+                    chk.ob(R, vf, con, True, "identical to the reference in canonical form once nests of independent loops are put in one "
+                           "order (each iteration writes its own elements, reads no element written by another one, and its scalars die "
+                           "with it: the nesting order does not change any computed value)", file=v, func=q)
+                    return True
+        except Exception:
+            pass
     res, why = spec_check(chk, v, q, vm)
     if res is False:
         return False
@@ -1088,7 +2236,22 @@ def body_equivalence(chk, ref, v, q, fn, vf, vm, flavour, pure):
                    file=v, func=q)
             return False
         why = f"the copy satisfies the specification formula but the reference could not be checked against it ({rwhy})"
-    # no (applicable) specification formula: compare statement by statement
+    # no (applicable) specification formula: a loop-free value function is compared as a table of guarded values
+    if vfr is not None:
+        gres, gwhy = guarded_values(chk, ref, v, q, fn, vfr, vm, pure)
+        if gres is True:
+            chk.ob(R, vf, con, True, f"loop-free function: on each of the {gwhy} pair(s) of paths that one input can take in the "
+                   "reference and in the copy, the returned values and the elements stored into the caller's arrays are equal (locals "
+                   "substituted forward, equalities of the path conditions applied; pairs of contradictory conditions excluded by "
+                   "elimination)", file=v, func=q)
+            return True
+        if gres is False:
+            chk.ob(R, vf, con, False, f"the {flavour} copy and the reference {ref.split('/')[-1]} are both loop-free functions and "
+                   f"were compared path by path: {gwhy}", file=v, func=q)
+            return False
+        if not gwhy.startswith("not a loop-free") and not gwhy.startswith("the function returns no"):
+            why = f"{why}; compared as guarded values: {gwhy}"
+    # otherwise compare statement by statement
     pairs = []
     if ca is None:
         chk.ob(R, vf, con, None, f"body differs from the reference; {why}; canonical form not available ({canon_err or 'parameters'})",
@@ -1110,6 +2273,11 @@ def body_equivalence(chk, ref, v, q, fn, vf, vm, flavour, pure):
             free = ({n.id for n in ast.walk(a) if isinstance(n, ast.Name)} - known_a) | ({n.id for n in ast.walk(b) if isinstance(n, ast.Name)} - known_b)
             if free or _equality_knowledge(sb, a, b):
                 return None
+            # a function that exists in one of the two modules only (a helper of the copy, a wrapper) is not a different operand
+            fa_ = {src(c.func) for c in ast.walk(a) if isinstance(c, ast.Call)}
+            fb_ = {src(c.func) for c in ast.walk(b) if isinstance(c, ast.Call)}
+            if any(chk.mod(ref).has(nm) != vm.has(nm) for nm in fa_ ^ fb_ if "." not in nm):
+                return None
         return r
     verdicts = [(judged(a, b, sb), a, b, sa, sb, what) for a, b, sa, sb, what in pairs]
     wrong = [x for x in verdicts if x[0] is False]
@@ -1120,6 +2288,64 @@ def body_equivalence(chk, ref, v, q, fn, vf, vm, flavour, pure):
         chk.ob(R, vf, con, None, "the copy has the statements of the reference in another order; whether the re-ordered statements are "
                f"independent is not decided ({why})", file=v, func=q)
         return None
+    tg = [x for x in verdicts if x[5] == "target"]
+    if any(x[0] is False for x in tg) and sorted(ast.dump(x[1]) for x in tg) == sorted(ast.dump(x[2]) for x in tg):
+        chk.ob(R, vf, con, None, "the copy stores into the same elements as the reference but in another order (and with differently "
+               f"written values): a re-ordering of statements, not an operand slip; equivalence not decided ({why})", file=v, func=q)
+        return None
+    if wrong:
+        def rejudge_full(body_b):
+            ps = []
+            try:
+                _pair_bodies(ca.body, body_b, ps)
+            except _Skeleton:
+                return None
+            return [(judged(a_, b_, sb_), a_, b_, sa_, sb_, w_) for a_, b_, sa_, sb_, w_ in ps]
+
+        def rejudge(body_b):
+            vs_ = rejudge_full(body_b)
+            return None if vs_ is None else [x[0] for x in vs_]
+        # a local (or loop counter) that is DEFINED differently and USED differently: one change of counting convention?  The
+        # shift of the definition is taken out of the copy (definition and every use) and the bodies are compared again
+        conv = _local_convention(cb, wrong, rejudge_full)
+        if conv is not None:
+            kind, x_, c_, info = conv
+            if kind == "same":
+                chk.ob(R, vf, con, True, f"same statements as the reference up to the origin of the local `{x_}`: the copy defines it "
+                       f"shifted by {c_} ({info}) and every use compensates the shift: the same values are computed", file=v, func=q)
+                return True
+            if kind == "inconsistent":
+                _, a_, b_, sa_, sb_, w_ = info[1]
+                chk.ob(R, vf, f"{con}: {w_} of `{src(sb_).splitlines()[0][:70]}`", False,
+                       f"the {flavour} copy defines the local `{x_}` shifted by {c_} with respect to the reference ({info[0]}); with that shift "
+                       f"taken out of its definition and of every use, the copy still has `{_short(b_)}` where the reference "
+                       f"{ref.split('/')[-1]} has `{_short(a_)}` ({w_}): this use does not follow the change of convention of `{x_}`, the copy "
+                       "does not compute what the source it mirrors computes", file=v, func=q)
+                return False
+            if kind == "undecided":
+                chk.ob(R, vf, con, None, f"the local `{x_}` is defined differently in the copy ({info}) and {c_} statement(s) that use it "
+                       "differ too: possibly one consistent change of convention; whether the differences compensate is not decided",
+                       file=v, func=q)
+                return None
+            if kind == "other":
+                wrong = info          # the shift is consistent; what remains differs independently of it
+        # is every difference explained by ONE permutation of the axes of one array?  Then the copy is the reference written for
+        # another memory layout of that array, not an operand slip
+        lay = _axis_permutation(cb, wrong, rejudge, {a.arg for a in cb.args.args})
+        if lay is not None:
+            X, sigma, n_acc, is_param, rest = lay
+            perm = ", ".join(f"axis {p_} of the reference is axis {sigma[p_]} of the copy" for p_ in range(len(sigma)) if sigma[p_] != p_)
+            if not is_param and rest:
+                chk.ob(R, vf, con, True, f"same statements as the reference; the local array `{X}` is allocated and addressed with its axes "
+                       f"permuted ({perm}) in its allocation and in all {n_acc} accesses, and is used in no other way: the same values in "
+                       "another memory layout of a scratch array", file=v, func=q)
+                return True
+            chk.ob(R, vf, con, None, f"the {flavour} copy addresses the array {'parameter' if is_param else 'local'} `{X}` with its axes "
+                   f"permuted ({perm}) consistently in all {n_acc} accesses (subscripts and `.shape`) and is otherwise "
+                   f"{'the same as' if rest else 'not shown to differ from'} the reference {ref.split('/')[-1]}: reference and copy are written "
+                   f"for two different memory layouts of `{X}`; they give the same results only if each is handed the array in its own layout, "
+                   "which depends on the callers and is not decided here", file=v, func=q)
+            return None
     for _, a, b, sa, sb, what in wrong[:4]:
         head = src(sb).splitlines()[0][:70]
         chk.ob(R, vf, f"{con}: {what} of `{head}`", False,
@@ -1137,6 +2363,177 @@ def body_equivalence(chk, ref, v, q, fn, vf, vm, flavour, pure):
     chk.ob(R, vf, con, True, f"same statements as the reference; the {n} expression(s) written differently are equal as rational "
            "functions of their operands (re-association only)", file=v, func=q)
     return True
+
+
+def _local_convention(cb, wrong, rejudge_full):
+    """a wrong pair that defines a local / loop counter x while other wrong pairs use x
+    -> ('same', x, c, text) | ('inconsistent', x, c, (text, pair)) | ('undecided', x, n, text) | ('other', x, c, remaining wrong) | None"""
+    import sympy as sp
+
+    def names(e):
+        return {n.id for n in ast.walk(e) if isinstance(n, ast.Name)}
+
+    def const_node(c):
+        if c.is_Integer:
+            return ast.Constant(int(c))
+        return ast.BinOp(left=ast.Constant(int(c.p)), op=ast.Div(), right=ast.Constant(int(c.q)))
+
+    def minus(e, c):
+        e = ast.parse(ast.unparse(e), mode="eval").body
+        return ast.BinOp(left=e, op=ast.Sub(), right=const_node(c)) if c > 0 else ast.BinOp(left=e, op=ast.Add(), right=const_node(-c))
+    for w in wrong:
+        _, a, b, sa, sb, what = w
+        if what == "value" and isinstance(sb, ast.Assign) and len(sb.targets) == 1 and isinstance(sb.targets[0], ast.Name):
+            x, kind = sb.targets[0].id, "assign"
+        elif what == "loop range" and isinstance(sb, ast.For) and isinstance(sb.target, ast.Name):
+            x, kind = sb.target.id, "for"
+        else:
+            continue
+        users = [u for u in wrong if u[4] is not sb and x in (names(u[1]) | names(u[2]))]
+        if not users:
+            continue
+        text = f"`{_short(b, 50)}` where the reference has `{_short(a, 50)}`"
+        nstores = sum(1 for n in ast.walk(cb) if isinstance(n, ast.Name) and n.id == x and isinstance(n.ctx, ast.Store))
+        c = None
+        try:
+            if nstores == 1 and kind == "assign":
+                c = sp.simplify(_to_sym(b, None) - _to_sym(a, None))
+            elif nstores == 1 and isinstance(a, ast.Call) and isinstance(b, ast.Call) and src(a.func) == src(b.func) == "range" \
+                    and not a.keywords and not b.keywords and 1 <= len(a.args) <= 3 and 1 <= len(b.args) <= 3:
+                def parts(r):
+                    z = [_to_sym(t, None) for t in r.args]
+                    return (sp.Integer(0), z[0], sp.Integer(1)) if len(z) == 1 else (z[0], z[1], z[2] if len(z) == 3 else sp.Integer(1))
+                (s1, e1, t1), (s2, e2, t2) = parts(a), parts(b)
+                if sp.simplify(t1 - t2) == 0 and sp.simplify((s2 - s1) - (e2 - e1)) == 0:
+                    c = sp.simplify(s2 - s1)
+        except Exception:
+            c = None
+        if c is None or not c.is_Rational or c == 0:
+            return "undecided", x, len(users), text
+        f = ast.parse(ast.unparse(cb)).body[0]
+        done = [False]
+
+        class S(ast.NodeTransformer):
+            def visit_Name(self, n):
+                if n.id == x and isinstance(n.ctx, ast.Load):
+                    return ast.BinOp(left=n, op=ast.Add(), right=const_node(c)) if c > 0 else ast.BinOp(left=n, op=ast.Sub(), right=const_node(-c))
+                return n
+
+            def visit_Assign(self, n):
+                self.generic_visit(n)
+                if kind == "assign" and len(n.targets) == 1 and isinstance(n.targets[0], ast.Name) and n.targets[0].id == x:
+                    n.value = minus(n.value, c)
+                    done[0] = True
+                return n
+
+            def visit_For(self, n):
+                if kind == "for" and isinstance(n.target, ast.Name) and n.target.id == x and isinstance(n.iter, ast.Call):
+                    r = n.iter
+                    if len(r.args) == 1:
+                        r.args = [ast.Constant(0), r.args[0]]
+                    r.args[0], r.args[1] = minus(r.args[0], c), minus(r.args[1], c)
+                    done[0] = True
+                    n.body = [self.visit(st) for st in n.body]
+                    n.orelse = [self.visit(st) for st in n.orelse]
+                    return n
+                self.generic_visit(n)
+                return n
+        try:
+            f = ast.parse(ast.unparse(_sort_operands(ast.fix_missing_locations(S().visit(f))))).body[0]
+        except Exception:
+            return "undecided", x, len(users), text
+        vs = rejudge_full(f.body) if done[0] else None
+        if vs is None:
+            return "undecided", x, len(users), text
+        wrong2 = [u for u in vs if u[0] is False]
+        if not wrong2:
+            return ("same", x, c, text) if all(u[0] is True for u in vs) else ("undecided", x, len(users), text)
+        tied = [u for u in wrong2 if x in (names(u[1]) | names(u[2]))]
+        if tied:
+            return "inconsistent", x, c, (text, tied[0])
+        return "other", x, c, wrong2
+    return None
+
+
+def _axis_permutation(cb, wrong, rejudge, params):
+    """-> (array, sigma, number of accesses, is parameter, everything else proved equal) when permuting the axes of one array in the
+    copy `cb` (sigma[p] = axis of the copy that plays the role of axis p of the reference) removes every recognised difference"""
+    import itertools
+    cands = {}
+    for _, a, b, _, _, _ in wrong:
+        for e in (a, b):
+            for n in ast.walk(e):
+                if isinstance(n, ast.Subscript) and isinstance(n.value, ast.Name) and isinstance(n.slice, ast.Tuple) and 2 <= len(n.slice.elts) <= 4:
+                    cands.setdefault(n.value.id, set()).add(len(n.slice.elts))
+                elif isinstance(n, ast.Subscript) and isinstance(n.value, ast.Attribute) and n.value.attr == "shape" \
+                        and isinstance(n.value.value, ast.Name):
+                    cands.setdefault(n.value.value.id, set())
+    for X, ranks in sorted(cands.items()):
+        # every use of X in the copy: full-rank subscripts and X.shape[k] (and, for a local, its allocation)
+        rank_seen = set(ranks)
+        for n in ast.walk(cb):
+            if isinstance(n, ast.Subscript) and isinstance(n.value, ast.Name) and n.value.id == X:
+                rank_seen.add(len(n.slice.elts) if isinstance(n.slice, ast.Tuple) else 1)
+        if len(rank_seen) != 1 or not (2 <= next(iter(rank_seen)) <= 4):
+            continue
+        r = next(iter(rank_seen))
+        is_param = X in params
+        for sigma in itertools.permutations(range(r)):
+            if list(sigma) == list(range(r)):
+                continue
+            inv = {sigma[p_]: p_ for p_ in range(r)}
+            f = ast.parse(ast.unparse(cb)).body[0]
+            n_acc, clean = [0], [True]
+
+            class P(ast.NodeTransformer):
+                def visit_Subscript(self, n):
+                    self.generic_visit(n)
+                    if isinstance(n.value, ast.Name) and n.value.id == X and isinstance(n.slice, ast.Tuple) and len(n.slice.elts) == r:
+                        n.slice.elts = [n.slice.elts[sigma[p_]] for p_ in range(r)]
+                        n_acc[0] += 1
+                        if any(isinstance(it, ast.Slice) for it in n.slice.elts):
+                            clean[0] = False
+                    elif isinstance(n.value, ast.Attribute) and n.value.attr == "shape" and isinstance(n.value.value, ast.Name) \
+                            and n.value.value.id == X:
+                        if isinstance(n.slice, ast.Constant) and isinstance(n.slice.value, int) and 0 <= n.slice.value < r:
+                            n.slice = ast.Constant(inv[n.slice.value])
+                            n_acc[0] += 1
+                        else:
+                            clean[0] = False
+                    return n
+
+                def visit_Assign(self, n):
+                    self.generic_visit(n)
+                    # allocation of a local: X = empty((a, b, c)) / zeros([a, b, c], ...)
+                    if not is_param and len(n.targets) == 1 and isinstance(n.targets[0], ast.Name) and n.targets[0].id == X \
+                            and isinstance(n.value, ast.Call) and n.value.args and isinstance(n.value.args[0], (ast.Tuple, ast.List)) \
+                            and len(n.value.args[0].elts) == r:
+                        n.value.args[0].elts = [n.value.args[0].elts[sigma[p_]] for p_ in range(r)]
+                    return n
+            f = ast.fix_missing_locations(P().visit(f))
+            # any other use of X (whole array handed on, bare name, other rank): the layout is visible elsewhere
+            bare = 0
+            for n in ast.walk(f):
+                if isinstance(n, ast.Name) and n.id == X:
+                    bare += 1
+            uses_ok = True
+            for n in ast.walk(f):
+                for ch in ast.iter_child_nodes(n):
+                    if isinstance(ch, ast.Name) and ch.id == X:
+                        ok_here = (isinstance(n, ast.Subscript) and n.value is ch) or \
+                            (isinstance(n, ast.Attribute) and n.attr == "shape") or \
+                            (isinstance(n, ast.Assign) and ch in n.targets)
+                        if not ok_here:
+                            uses_ok = False
+            try:
+                f = ast.parse(ast.unparse(_sort_operands(f))).body[0]
+            except Exception:
+                continue
+            vs = rejudge(f.body)
+            if vs is None or any(x is False for x in vs):
+                continue
+            return X, sigma, n_acc[0], is_param, (all(x is True for x in vs) and clean[0] and uses_ok)
+    return None
 
 
 def _short(e, n=110):
@@ -1606,16 +3003,42 @@ def call_sites(chk):
                     k, fn = kernels[name]
                     formals = [a.arg for a in fn.args.args]
                     nd = len(fn.args.defaults)
-                    if any(isinstance(a, ast.Starred) for a in c.args):
-                        continue
-                    b = agree.bind_call(c, formals)
                     required = formals[:len(formals) - nd]
-                    ok = b is not None and all(r in b for r in required)
-                    n += 1
                     from ..core import qual
-                    chk.ob("I1-call-fits-signature", c, f"{name}(...) in {rel.split('/')[-1]}:{qual(c)}", ok,
-                           f"{len(c.args)} positional + {len(c.keywords)} keyword arguments bind {len(formals)} parameters" if ok else
-                           f"call does not fit `{name}({', '.join(formals)})`", file=rel, func=qual(c), nontrivial=False)
+                    args, kws, problem = expand_call(c)
+                    n += 1
+                    con = f"{name}(...) in {rel.split('/')[-1]}:{qual(c)}"
+                    sig = f"`{name}({', '.join(formals)})`"
+                    bad = None
+                    if fn.args.vararg or fn.args.kwarg or fn.args.kwonlyargs:
+                        chk.ob("I1-call-fits-signature", c, con, None, f"{sig} has variadic / keyword-only parameters: binding not "
+                               "compared", file=rel, func=qual(c), nontrivial=False)
+                        continue
+                    if isinstance(problem, tuple):
+                        bad = f"keyword `{problem[1]}` is passed twice (explicitly and through the `**mapping`): TypeError at the call"
+                    elif len(args) > len(formals):
+                        bad = f"{len(args)} positional arguments for the {len(formals)} parameters of {sig}: TypeError at the call"
+                    else:
+                        unknown_kw = sorted(kk for kk in kws if kk not in formals)
+                        twice = sorted(kk for kk in kws if kk in formals[:len(args)])
+                        missing = [r for r in required if r not in formals[:len(args)] and r not in kws]
+                        if unknown_kw:
+                            bad = f"keyword(s) {unknown_kw} are not parameters of {sig}: TypeError at the call"
+                        elif twice:
+                            bad = f"parameter(s) {twice} of {sig} are passed both by position and by keyword: TypeError at the call"
+                        elif missing and problem is None:
+                            bad = f"required parameter(s) {missing} of {sig} are not passed: TypeError at the call"
+                    if bad:
+                        chk.ob("I1-call-fits-signature", c, con, False, "call does not fit the kernel signature: " + bad, file=rel,
+                               func=qual(c), nontrivial=False)
+                    elif problem is not None:
+                        chk.ob("I1-call-fits-signature", c, con, None, f"the call passes arguments through a starred expression that could not "
+                               f"be followed ({problem}): whether it fits {sig} is not decided", file=rel, func=qual(c), nontrivial=False)
+                    else:
+                        chk.ob("I1-call-fits-signature", c, con, True,
+                               f"{len(args)} positional + {len(kws)} keyword arguments bind {len(formals)} parameters"
+                               + (" (starred arguments written out from their literal)" if len(args) != len(c.args) or len(kws) != len(c.keywords)
+                                  or any(k_.arg is None for k_ in c.keywords) else ""), file=rel, func=qual(c), nontrivial=False)
     if n < 60:
         raise AnalysisError(f"C19: only {n} kernel call sites found (floor 60)")
     chk.extra["kernel_call_sites"] = n
@@ -1790,6 +3213,23 @@ def _correction(st, x):
     return "unknown", head
 
 
+def _correction_amount(st, x):
+    """the amount a statement `if x < 0: x += P` / `x = x + P if x < 0 else x` adds to x (source text), else None"""
+    if isinstance(st, ast.AugAssign) and isinstance(st.op, ast.Add):
+        return src(st.value)
+    if isinstance(st, ast.Assign) and isinstance(st.value, ast.BinOp) and isinstance(st.value.op, ast.Add):
+        v = st.value
+        if isinstance(v.left, ast.Name) and v.left.id == x:
+            return src(v.right)
+        if isinstance(v.right, ast.Name) and v.right.id == x:
+            return src(v.left)
+    if isinstance(st, ast.Assign) and isinstance(st.value, ast.IfExp):
+        for arm in (st.value.body, st.value.orelse):
+            if isinstance(arm, ast.BinOp) and isinstance(arm.op, ast.Add) and isinstance(arm.left, ast.Name) and arm.left.id == x:
+                return src(arm.right)
+    return None
+
+
 def periodic_indices(chk, rel, q, fn, ref_fn):
     """-> number of violations recorded"""
     R = "K1-no-negative-index-wrap"
@@ -1845,6 +3285,12 @@ def periodic_indices(chk, rel, q, fn, ref_fn):
         v0 = first_value[pos_[0].id] + const
         return (pos_[0].id, first_value[pos_[0].id], v0) if v0 < 0 else None
 
+    def guarded_on(node, name):
+        """is the node control dependent on an `if`/`while` test (or conditional expression) that mentions `name`?  Then the first
+        iterations may be excluded by that test: no claim about them"""
+        from ..core import guards_of
+        return any(kind_ != "for" and name in {n.id for n in ast.walk(t) if isinstance(n, ast.Name)} for t, _, kind_ in guards_of(node))
+
     def resolve(e, depth=0):
         """single-assignment scalar locals written back (two levels): `d = i - s; idx = d` is `idx = i - s`"""
         if depth > 2:
@@ -1859,18 +3305,34 @@ def periodic_indices(chk, rel, q, fn, ref_fn):
                 return n
         return Sub().visit(ast.parse(src(e), mode="eval").body)
 
+    def open_mods(e):
+        """subtracted `Y % n` terms that are not made up for by an added `n` in the same sum (i + n - s % n is never negative for
+        i >= 0)"""
+        terms = _additive_terms(e)
+        plus = [src(t) for sg, t in terms if sg > 0]
+        out = []
+        for sg, t in terms:
+            if sg < 0 and _is_mod(t):
+                if src(t.right) in plus:
+                    plus.remove(src(t.right))
+                else:
+                    out.append(t)
+        return out
+
     def may_be_negative(e):
         """recognisable reasons why an index value can be negative: a variable is subtracted, or it contains array data"""
         if _is_mod(e):
             return None
         terms = _additive_terms(e)
+        if any(sg < 0 and _is_mod(t) for sg, t in terms) and not open_mods(e) and not (_names_outside_mod(e) & data) \
+                and not any(sg < 0 and not _is_mod(t) and not isinstance(t, ast.Constant) for sg, t in terms):
+            return None           # every subtracted remainder is made up for by its modulus
         if len(terms) == 1 and not (terms[0][0] < 0) and not (_names_outside_mod(e) & data):
             return None
         if all(sg < 0 for sg, _ in terms) and any(not isinstance(t, ast.Constant) for _, t in terms):
             return f"`{src(e)}` counts from the end of the array (negative for every positive `{src([t for _, t in terms if not isinstance(t, ast.Constant)][0])}`)"
-        for sg, t in terms:
-            if sg < 0 and _is_mod(t):
-                return f"`{src(t)}` can exceed the rest of `{src(e)}`"
+        for t in open_mods(e):
+            return f"`{src(t)}` can exceed the rest of `{src(e)}`"
         for sg, t in terms:
             if _names_outside_mod(t) & data:
                 nm = sorted(_names_outside_mod(t) & data)[0]
@@ -1903,6 +3365,11 @@ def periodic_indices(chk, rel, q, fn, ref_fn):
                     mine = [_correction(c, x) for c in corr if pos[id(d)] < pos[id(c)] < nxt]
                     val = resolve(d.value)
                     fi = first_iteration_negative(val)
+                    if fi is not None and not mine and (guarded_on(d, fi[0]) or guarded_on(sub, fi[0])):
+                        chk.ob(R, d, f"index {x} = {src(d.value)}", None, f"`{x} = {src(d.value)}` would be {fi[2]} in the first iteration of "
+                               f"`{fi[0]}`, but it is computed / used under a condition on `{fi[0]}`: whether the negative value reaches the "
+                               "subscript is not decided", file=rel, func=q)
+                        continue
                     if fi is not None and not mine:
                         nviol += 1
                         chk.ob(R, d, f"index {x} = {src(d.value)}", False,
@@ -1918,13 +3385,27 @@ def periodic_indices(chk, rel, q, fn, ref_fn):
                             chk.ob(R, d, f"index {x} = {src(d.value)}", True, "the difference is reduced with `%` before it is used as an "
                                    "index: never negative, in interpreted and in compiled code alike", file=rel, func=q)
                         continue
-                    wrapped_mod = any(sg < 0 and _is_mod(t) for sg, t in _additive_terms(val))
+                    wrapped_mod = bool(open_mods(val))
+                    neg_vars = [t for sg, t in _additive_terms(val) if sg < 0 and not isinstance(t, ast.Constant)]
+                    counters_only = bool(neg_vars) and all(isinstance(t, ast.Name) and t.id in first_value and t.id not in data for t in neg_vars) \
+                        and not (_names_outside_mod(val) & data)
+                    periods = {a_ for a_ in (_correction_amount(c, x) for c in corr if pos[id(d)] < pos[id(c)] < nxt) if a_}
+                    one_remainder = len(neg_vars) == 1 and _is_mod(neg_vars[0]) and src(neg_vars[0].right) in periods \
+                        and not (_names_outside_mod(val) & data)
                     if "mod" in kinds or "low-while" in kinds:
                         chk.ob(R, d, shown, True, "the index is brought into range by `%` / by a loop that adds the period as long as it is "
                                "negative", file=rel, func=q)
                     elif "unknown" in kinds:
                         chk.ob(R, d, shown, None, f"the index can be negative ({why}) and is re-bound by `{[t for k_, t in mine if k_ == 'unknown'][0][:80]}`, "
                                "which is none of the recognised range corrections: cannot decide whether a negative value reaches the subscript",
+                               file=rel, func=q)
+                    elif "low-if" in kinds and one_remainder:
+                        chk.ob(R, d, shown, True, f"the only subtracted term `{src(neg_vars[0])}` is smaller than the period "
+                               f"`{src(neg_vars[0].right)}`, which is added back when the index is negative: one correction is enough",
+                               file=rel, func=q)
+                    elif counters_only and ("low-if" in kinds or "up" in kinds):
+                        chk.ob(R, d, shown, None, f"`{x} = {src(d.value)}` subtracts the loop counter(s) {[src(t) for t in neg_vars]}, whose "
+                               "range bounds the shift: whether the single range correction that follows is enough is not decided",
                                file=rel, func=q)
                     elif wrapped_mod:
                         nviol += 1
@@ -1963,6 +3444,11 @@ def periodic_indices(chk, rel, q, fn, ref_fn):
                 seen.add(key)
                 val = resolve(it)
                 fi = first_iteration_negative(val)
+                if fi is not None and guarded_on(sub, fi[0]):
+                    chk.ob(R, sub, f"{src(sub)[:60]} with index {src(it)}", None, f"`{src(it)}` would be {fi[2]} in the first iteration of "
+                           f"`{fi[0]}`, but the access stands under a condition on `{fi[0]}`: whether the negative value reaches the "
+                           "subscript is not decided", file=rel, func=q)
+                    continue
                 if fi is not None:
                     nviol += 1
                     chk.ob(R, sub, f"{src(sub)[:60]} with index {src(it)}", False,
@@ -1975,7 +3461,7 @@ def periodic_indices(chk, rel, q, fn, ref_fn):
                     if _is_mod(val) and any(sg < 0 for sg, _ in _additive_terms(val.left)):
                         chk.ob(R, sub, f"{src(sub)[:60]}", True, "the difference is reduced with `%` inside the subscript", file=rel, func=q)
                     continue
-                if any(sg < 0 and _is_mod(t) for sg, t in _additive_terms(val)) or (_names_outside_mod(val) & data) or _from_end(val):
+                if open_mods(val) or (_names_outside_mod(val) & data) or _from_end(val):
                     nviol += 1
                     chk.ob(R, sub, f"{src(sub)[:60]} with index {src(it)}", False,
                            f"the index `{src(it)}` can be negative ({why}): interpreted Python wraps it around, the compiled "
@@ -2125,7 +3611,10 @@ def run(chk):
         "matching arity and argument types; duplicated pythran copies agree; each variant body is AST-identical to the reference, "
         "identical in canonical form (temporaries and hoisted invariants written back, early returns, merged arms, enumerate/range, "
         "operand order), proved against the same specification formula as the reference (engine F, helper functions inlined), or "
-        "statement-for-statement equal with algebraically equal expressions - a recognisably different expression is a violation, "
+        "statement-for-statement equal with algebraically equal expressions; loop-free functions are compared as tables of guarded "
+        "values (path conditions decided by Fourier-Motzkin elimination); consistent changes of convention (shifted counter, permuted "
+        "axes of a scratch array, loop order of independent nests, scalarised elementwise temporaries) are followed on both sides - "
+        "a recognisably different expression is a violation, "
         "anything else undecided; no kernel index relies on negative wrap-around (modulo lost, one-sided or single-step range "
         "correction, unreduced array data) and no loop counter is read after its loop. Equality of compiled and interpreted "
         "numerical results is inherently dynamic and is not decided.")
